@@ -6,8 +6,11 @@ the checks as they are now."""
 import glob, json, os, subprocess, sys
 from concurrent.futures import ThreadPoolExecutor
 V = "/verif"
-n = int(sys.argv[2]) if len(sys.argv) > 2 and sys.argv[1] == "-j" else 4
+n = int(sys.argv[sys.argv.index("-j") + 1]) if "-j" in sys.argv else 4
+only = [a for a in sys.argv[1:] if a.startswith("C") and len(a) == 3]      # optional: restrict to these properties
 seeds = sorted(os.path.basename(os.path.dirname(m)) for m in glob.glob(V + "/seeded/*/meta.json"))
+if only:
+    seeds = [x for x in seeds if x.split("-")[0] in only]
 def run(name):
     own = name.split("-")[0]
     def one(p):
